@@ -110,7 +110,10 @@ def rt_task(task):
             if "%O" in fmt and rep == "ymcw":
                 rep = "ymd"     # Roman numerals are only implemented for values printed through ymd
             if rep == "sexy" or (fcls.startswith("s/") and sod is None):
-                sod = sod if sod is not None else 0
+                # epoch seconds carry a time of day: minute/hour borrows show at hh:59:ss and 23:59:ss before 1970
+                sod = sod if sod is not None else rng.choice([0, 1, 59, 3541, 3599, 3600, 43199, 86341, 86399,
+                                                               rng.randrange(24) * 3600 + 3540 + rng.randrange(1, 60),
+                                                               rng.randrange(86400)])
             dz = o - cal.ORD_MIN + 1
             reqs.append(req("R", rep, str(dz), None if sod is None else str(sod), fmt, "256"))
             meta.append((fmt, fcls, rep, o, sod))
